@@ -69,8 +69,10 @@ def harness_ids(cfg, pid):
     for p in cfg["pkgs"]:
         for f in glob.glob(os.path.join(VERIF, "harness", p, "*.go")):
             src = open(f).read()
+            failf = set(re.findall(r'Failf\("([^"]+)"\)', src))
             for m in re.finditer(r'"(%s\.[A-Za-z0-9_.\-]+)"' % re.escape(pid), src):
-                ids.add(m.group(1))
+                if m.group(1) not in failf:
+                    ids.add(m.group(1))
     return ids
 
 
